@@ -792,6 +792,12 @@ func ToEntry(n Node) (e *Entry) {
 				// The key of the map used is a synthesised value which is formed by
 				// concatenating the name of this node and the included submodule,
 				// separated by a ":".
+				if a.Module == nil {
+					// The include has not been resolved, e.g. because n is a
+					// submodule whose module has not been loaded.
+					e.addError(fmt.Errorf("%s: no such submodule: %s", Source(a), a.Name))
+					continue
+				}
 				srcToIncluded := a.Module.Name + ":" + n.NName()
 				includedToSrc := n.NName() + ":" + a.Module.Name
 
